@@ -38,7 +38,39 @@ class C14(Prop):
                                      "ops": op_records(OPS_C14, 40), "big": st.booleans()})
         return st.fixed_dictionaries({"segments": st.lists(seg, min_size=1, max_size=3)})
 
+    def prelude(self, lib, stats, index, nworkers, tier):
+        """utility results of every size class: the composed patch path of every length 1..300 (small-buffer optimisations
+        and their boundaries live here), under both-custom hooks and only-free-custom hooks"""
+        for L in range(1, 301):
+            if L % nworkers != index:
+                continue
+            case = {"kind": "pathlen", "len": L, "shape": L % 4, "mode": LG_BOTH if L % 2 else LG_FREE_ONLY}
+            self.last_write(case)
+            try:
+                self.run_pathlen(lib, stats, case)
+            except Violation as v:
+                v.detail = {"case": case}
+                raise
+
+    def run_pathlen(self, lib, stats, case):
+        from .c17 import PROP as c17
+        mode = case["mode"]
+        lib.ledger_install(mode)
+        lib.ledger_reset_counters()
+        try:
+            c17.run_pathlen(lib, stats, case)
+            s = lib.stats()
+            if mode == LG_BOTH and (s.wrap_malloc or s.wrap_realloc or s.wrap_calloc or s.wrap_free):
+                raise Violation("[both hooks custom] the C library allocator was used while generating/applying a patch with a %d-byte key" % case["len"], key="libc-used")
+            if mode == LG_FREE_ONLY and (s.wrap_free or s.wrap_realloc):
+                raise Violation("[only free_fn custom] a release bypassed free_fn / realloc was used (key length %d)" % case["len"], key="libc-used")
+        finally:
+            if lib.ledger_live() == 0:
+                lib.ledger_install(LG_BOTH)
+
     def run_case(self, lib, case, stats):
+        if case.get("kind") == "pathlen":
+            return self.run_pathlen(lib, stats, case)
         prev = None
         try:
             for seg in case["segments"]:
